@@ -202,8 +202,11 @@ def build_cases(thorough, rng):
                 if np > 1 and rng.randrange(3) == 0:
                     k2 = (k + 1) % np
                     vs[k2] = vals[rng.randrange(len(vals))]
-                cases.append({"id": len(cases) + 1, "tpl": tpl, "mode": mode, "vals": [x["wire"] for x in vs],
-                              "_vs": vs, "_probe": k})
+                # an earlier execution of the same statement with other values: none / successful / failed at the backend
+                pres = ("", "ok", "failed") if (thorough and ti == 0) else (("", "ok", "failed")[(vi + ti) % 3],)
+                for pre in pres:
+                    cases.append({"id": len(cases) + 1, "tpl": tpl, "mode": mode, "pre": pre, "vals": [x["wire"] for x in vs],
+                                  "_vs": vs, "_probe": k})
     return cases
 
 
@@ -268,12 +271,14 @@ def run(ctx):
         probe = c["_vs"][c["_probe"]]
         stored = {k: v for k, v in c.items() if k != "id"}
         mode = c["mode"] or "default"
-        if o["status"] in ("set-refused", "prepare-refused", "count"):
+        hist = {"": "", "ok": " (after an execution with other values)",
+                "failed": " (after a failed execution with other values)"}[c.get("pre", "")]
+        if o["status"] in ("set-refused", "prepare-refused", "count", "pre-unexpected"):
             raise vlib.Inconclusive("case %d could not be driven: %s %s" % (c["id"], o["status"], o.get("err")))
         if o["status"] == "refused":
             continue
         if len(o["out"]) != 1:
-            ctx.deviation("C15 mode=%s %s: %d statements reached the backend" % (mode, probe["cls"], len(o["out"])),
+            ctx.deviation("C15 mode=%s %s%s: %d statements reached the backend" % (mode, probe["cls"], hist, len(o["out"])),
                           "template %r value %s: backend received %r" % (c["tpl"], probe["show"], o["out"]), {"case": stored})
             continue
         v = verdicts[c["id"]]
@@ -283,7 +288,7 @@ def run(ctx):
             continue
         culprit = c["_vs"][v["k"] - 1] if v.get("k") else probe
         text = bytes.fromhex(o["out"][0])
-        ctx.deviation("C15 mode=%s %s: %s" % (mode, culprit["cls"], v["why"]),
+        ctx.deviation("C15 mode=%s %s%s: %s" % (mode, culprit["cls"], hist, v["why"]),
                       "template %r, value %s (%s), sql_mode %s: the backend received %r; read under that sql_mode: %s"
                       % (c["tpl"], culprit["show"], culprit["cls"], mode, text, v["why"]), {"case": stored})
     ctx.cov["distinct_nontrivial"] = nontriv
